@@ -46,7 +46,7 @@ def conv_axioms(ex, g):
     g["term"] = term
     return [z3.ForAll([gg, idx], A(gg, 0, 0, idx) == 0),
             z3.ForAll([gg, i, j, idx], z3.Implies(z3.And(0 <= i, 0 <= j, j < x2.N), A(gg, i, j + 1, idx) == A(gg, i, j, idx) + z3.If(
-                upos(i, j) == gg, term(i, j, idx), 0)), patterns=[A(gg, i, j + 1, idx)]),
+                upos(i, j) == gg, term(i, j, idx), 0)), patterns=[z3.MultiPattern(A(gg, i, j + 1, idx), upos(i, j))]),
             z3.ForAll([gg, i, idx], z3.Implies(0 <= i, A(gg, i + 1, 0, idx) == A(gg, i, x2.N, idx)), patterns=[A(gg, i + 1, 0, idx)])]
 
 
@@ -144,7 +144,15 @@ class Multiply(Contract):
         def inner_havoc(ex, env, k):
             havoc_state(ex, env)
             ex.ghost["j"] = k
-        return {1: LoopSpec(outer_inv, outer_havoc, modifies=("expon1", "coeff1", "expon2", "coeff2", "key")),
+        def outer_exit(ex, env):
+            g = ex.ghost
+            ctx = ex.ctx
+            M, seen, usi, usj, upos, x1, x2 = g["M"], g["seen"], g["usi"], g["usj"], g["upos"], g["x1"], g["x2"]
+            l1 = ctx.forall_range(0, M, lambda t: z3.Implies(z3.And(0 <= usi(t), usi(t) < x1.N, 0 <= usj(t), usj(t) < x2.N,
+                                                                   upos(usi(t), usj(t)) == t), seen.has(t)))
+            l2 = ctx.forall_range(0, M, lambda t: seen.has(t))
+            return [("a_field_whose_witness_pair_exists_was_seen", l1), ("every_field_was_seen", l2)]
+        return {1: LoopSpec(outer_inv, outer_havoc, modifies=("expon1", "coeff1", "expon2", "coeff2", "key"), exit_lemmas=outer_exit),
                 2: LoopSpec(inner_inv, inner_havoc, modifies=("expon2", "coeff2", "key"))}
 
     def cases(self):
